@@ -300,7 +300,8 @@ def _viewpoint(rng: random.Random, pts: List[List[float]], mode: str) -> Tuple[L
 
 # ----------------------------------------------------------------------------- geometry of the oracle (floats with margins)
 def _tri_normals(p, cyc):
-    """unit outward normals of the four triangles a side can be split into"""
+    """unit outward normals of the four triangles a side can be split into, and of the side's area vector
+    (so that in a clear view every notion of 'the side's normal' gives the same answer)"""
     import numpy as np
 
     a, b, c, d = (p[i] for i in cyc)
@@ -308,6 +309,8 @@ def _tri_normals(p, cyc):
     for t in ((a, b, c), (a, c, d), (a, b, d), (b, c, d)):
         n = np.cross(t[1] - t[0], t[2] - t[0])
         out.append(n / np.linalg.norm(n))
+    n = np.cross(c - a, d - b)
+    out.append(n / np.linalg.norm(n))
     return out
 
 
@@ -415,7 +418,10 @@ class C18(core.Check):
         "convention names and those quads are made of the best aligned remaining hull triangles, independence from the "
         "initial numbering given the same hull, the 48 relabellings map sides onto sides, and uniqueness of the canonical "
         "numbering among them. Only validator/oracle-checked: that the returned numbering satisfies Canonical "
-        "(front/top best aligned, all eight triple products positive) in clear views, and that scipy's hull is a hull."
+        "(front/top best aligned, all eight triple products positive) and is one of the 48 relabellings of the block in "
+        "clear views, and that scipy's hull is a hull. Known finding (proved counterexample "
+        "T_C18_relabelling_counterexample): in dubious views of blocks with warped sides the result can be a permutation "
+        "of the points that is not a relabelling of the block."
     )
 
     # ------------------------------------------------------------------ generators
@@ -836,7 +842,7 @@ class C18(core.Check):
             Q = [P[i] for i in idx]
             if tuple(idx) in SYM48:
                 tps = _corner_triples(Q)
-                if not all(t > 0 for t in tps):
+                if all(t > 0 for t in _corner_triples(P)) and not all(t > 0 for t in tps):
                     out.append(
                         {
                             "site": site + "left-handed-result",
